@@ -1,12 +1,110 @@
 import Driver.Util
-/-! Driver section for C17 (stub until the model is online). -/
+import RxnModel.Model.Wal
+/-!
+Driver section for C17. Stateful per case:
+  SST:  `tbl <ents>` | `get k` | `rget k` | `scan p` | `rscan p` | `bloom k` | `run <target> <ents>` | `runok` | `sel i`
+        | `info` | `runinfo` | `rdoc`
+  WAL:  `wnew id max` | `wput k v seq` | `wdel k seq` | `wcut` | `wtrunc seq` | `wrot` | `wstate` | `wread after`
+        | `wreadhex <hex> after` | `wfile`
+Entries: comma separated `key/seq/del/val` (hex, `-` = empty); `-` alone = no entries.
+-/
 namespace Driver.C17
-open Rxn Driver
+open Rxn Rxn.Sst Driver
 
-def step (st : Unit) : List String → Unit × String
+structure St where
+  ents : List Entry := []              -- entries of the selected table
+  data : Bytes := []                   -- its file
+  doc : Doc := docOf []
+  fresh : Option Meta := none          -- metadata of the freshly written table
+  reopened : Option Meta := none       -- metadata loaded from the file via the document
+  chunks : List (List Entry) := []
+  w : Wal.Writer := Wal.Writer.new 0 0
+  saved : Bytes := []                  -- last saved WAL file
+
+def parseEntry (s : String) : Entry :=
+  match s.splitOn "/" with
+  | [k, q, d, v] => ⟨hexOr k, natOr q, d == "1", hexOr v⟩
+  | _ => ⟨[], 0, false, []⟩
+
+def parseEntries (s : String) : List Entry :=
+  if s == "-" then [] else (s.splitOn ",").map parseEntry
+
+def showEntry (e : Entry) : String :=
+  s!"{toHex e.key}/{e.seq}/{if e.del then 1 else 0}/{toHex e.val}"
+
+def showEntries (es : List Entry) : String :=
+  if es.isEmpty then "-" else joinWith "," (es.map showEntry)
+
+def showGet : GetRes → String
+  | .found e => if e.del then s!"del {e.seq}" else s!"val {e.seq} {toHex e.val}"
+  | .notFound => "notfound"
+  | .err => "err"
+
+def showDoc (d : Doc) (data : Bytes) : String :=
+  s!"size={d.size} esize={d.entriesSize} start={toHex d.startKey} end={toHex d.endKey} sseq={d.startSeq} eseq={d.endSeq} fnv={(fnv64 data).toNat}"
+
+def selectTable (st : St) (es : List Entry) : St :=
+  let data := encTable es
+  let doc := docOf es
+  { st with ents := es, data := data, doc := doc, fresh := some (metaOf es), reopened := openDoc doc data }
+
+def showRead (e : Wal.Read) : String :=
+  s!"{toHex e.key}/{e.seq}/{if e.del then 1 else 0}/{toHex e.val}"
+
+def showReads (es : List Wal.Read) : String :=
+  if es.isEmpty then "-" else joinWith "," (es.map showRead)
+
+def showReadRes : Wal.ReadRes → String
+  | .ok es => "ok " ++ showReads es
+  | .err es => "err " ++ showReads es
+  | .panic => "panic"
+
+def showWState (w : Wal.Writer) : String :=
+  let segs := w.sealed.map fun s => s!"{s.latest}:{(Wal.encRecs s.recs).length}"
+  s!"id={w.id} sealed=[{joinWith "," segs}] active={(Wal.encRecs w.active).length} latest={w.latest}"
+
+def withMeta (m : Option Meta) (f : Meta → String) : String :=
+  match m with
+  | some m => f m
+  | none => "loaderr"
+
+def step (st : St) : List String → St × String
+  | ["tbl", es] => (selectTable st (parseEntries es), "ok")
+  | ["info"] => (st, withMeta st.fresh fun _ => showDoc st.doc st.data)          -- M-obs: document and checksum of the whole file
+  | ["get", k] => (st, withMeta st.fresh fun m => showGet (get m st.doc.entriesSize st.data (hexOr k)))
+  | ["rget", k] => (st, withMeta st.reopened fun m => showGet (get m st.doc.entriesSize st.data (hexOr k)))
+  | ["scan", p] => (st, withMeta st.fresh fun _ => match scanPrefix st.doc.entriesSize st.data (hexOr p) with
+      | some es => showEntries es | none => "err")
+  | ["rscan", p] => (st, withMeta st.reopened fun _ => match scanPrefix st.doc.entriesSize st.data (hexOr p) with
+      | some es => showEntries es | none => "err")
+  | ["rdoc"] => (st, withMeta st.reopened fun _ => s!"{toHex st.doc.startKey} {toHex st.doc.endKey} {st.doc.size} {st.doc.entriesSize}")
+  | ["bloom", k] => (st, withMeta st.reopened fun m => toString (m.bloom.mightHave (hexOr k)))
+  | ["run", target, es] =>
+    ({ st with chunks := writeRun (natOr target) (parseEntries es) }, "ok")
+  | ["runinfo"] =>                                     -- M-obs: exact chunking and files
+    let descr := st.chunks.map fun c => s!"{c.length}:{toHex (docOf c).startKey}:{toHex (docOf c).endKey}:{(docOf c).size}:{(fnv64 (encTable c)).toNat}"
+    (st, joinWith " " (s!"n={st.chunks.length}" :: descr))
+  | ["runok"] => (st, "ok")     -- spec: C17.writeRun_concat / writeRun_ranges / writeRun_nonempty
+  | ["sel", i] => (selectTable st (st.chunks.getD (natOr i) []), "ok")
+  | ["wnew", id, mx] => ({ st with w := Wal.Writer.new (natOr id) (natOr mx), saved := [] }, "ok")
+  | ["wput", k, v, q] =>
+    let w := st.w.put (hexOr k) (hexOr v) (natOr q)
+    ({ st with w := w }, s!"full={w.full}")
+  | ["wdel", k, q] =>
+    let w := st.w.delete (hexOr k) (natOr q)
+    ({ st with w := w }, s!"full={w.full}")
+  | ["wcut"] => ({ st with w := st.w.cut }, "ok")
+  | ["wtrunc", q] => ({ st with w := st.w.truncate (natOr q) }, "ok")
+  | ["wrot"] =>
+    let saved := st.w.save
+    ({ st with w := st.w.rotate, saved := saved }, "ok")
+  | ["wfile"] => (st, toHex st.saved)                  -- M-obs: bytes of the last saved file
+  | ["wstate"] => (st, showWState st.w)
+  | ["wread", a] => (st, showReadRes (Wal.readAll st.saved (natOr a)))
+  | ["wreadhex", h, a] => (st, showReadRes (Wal.readAll (hexOr h) (natOr a)))
   | _ => (st, "bad-op")
 
 def handle (lines : Array String) (i : Nat) (out : Array String) : Nat × Array String :=
-  runLines step () lines i out
+  runLines step {} lines i out
 
 end Driver.C17
